@@ -404,6 +404,36 @@ def prefix_checks(ctx):
                                   codes=codes(P, text))
         except Exception as e:
             rec.violation("C13:single-prefixed-schema:raises:" + type(e).__name__, version=version, error=repr(e)[:200])
+    # several libraries under one prefix, loaded from a folder that holds only the first one's file (the others are found
+    # after the folder is completed from the installation): the same schema, or the same refusal, as from a complete cache
+    import shutil
+    import tempfile
+    for first, second in (("score_1.1.0", "testlib_2.0.0"), ("testlib_2.0.0", "score_1.1.0"), ("testlib_2.0.0", "testlib_2.1.0"),
+                          ("testlib_2.1.0", "testlib_3.0.0")):
+        for prefix in ("lb:", ""):
+            rec.n("evaluations")
+            rec.n("distinct_nontrivial")
+            spec = f"{prefix}{first},{second}"
+
+            def outcome(**kw):
+                try:
+                    S = load_schema_version(spec, **kw)
+                    return ("loaded", len(S.tags.all_names), sorted(S.tags.all_names)[:3], S.version)
+                except HedFileError as e:
+                    return ("refused", e.code)
+            folder = tempfile.mkdtemp(dir="/dev/shm", prefix="verif-c13-")
+            try:
+                shutil.copy(os.path.join(core.SCHEMA_DATA, fname(first)), folder)
+                partial = outcome(xml_folder=folder)
+                complete = outcome()
+                if partial != complete:
+                    rec.violation("C13:partial-cache-folder:several-libraries-under-one-prefix-load-differently", versions=spec,
+                                  from_complete_cache=complete, from_folder_holding_only_the_first=partial)
+                rec.outcome("partial-folder:" + complete[0])
+            except Exception as e:
+                rec.violation("C13:partial-cache-folder:raises:" + type(e).__name__, versions=spec, error=repr(e)[:200])
+            finally:
+                shutil.rmtree(folder, ignore_errors=True)
     # an unmerged partnered library is built on the (cached, possibly used) standard schema: same verdicts under a prefix
     for lib in ("testlib_2.0.0", "score_1.1.0"):
         rec.n("evaluations")
